@@ -1,6 +1,7 @@
 SPECIFICATION Spec
 CONSTANTS
   MaxSet = 3
+  Bases <- BasesNone
   Ordered = TRUE
 INVARIANTS TypeOK NoLeak Partition Recovered
 VIEW View
